@@ -264,13 +264,17 @@ def main(pid, run, native=None):
     except BuildError as e:
         print('INCONCLUSIVE: build failed:', e)
         return 2
+    except Exception as e:          # e.g. MIR the parser does not know: never a pass, never a crash
+        traceback.print_exc(limit=4)
+        print(f'INCONCLUSIVE: could not set up the run: {type(e).__name__}: {e}')
+        return 2
     try:
         if a.replay:
             from harness import replay as R
             return R.replay(ctx, a.replay)
         run(ctx)
         return ctx.finish()
-    except (Unsupported, Inconclusive, PathLimit, T.DecodeError) as e:
+    except Exception as e:           # Unsupported / Inconclusive / PathLimit / DecodeError, and any internal error of the machinery
         traceback.print_exc(limit=6)
         print(f'INCONCLUSIVE: {type(e).__name__}: {e}')
         ctx.inconclusive.append(f'{type(e).__name__}: {e}')
